@@ -1,118 +1,283 @@
 ---------------------------- MODULE Engine ----------------------------
 (***************************************************************************)
-(* Layer B, stage 1.  ProbLog's message-driven grounding engine            *)
-(* (problog/engine_stack.py, problog/eval_nodes.py) on ACYCLIC             *)
-(* PROPOSITIONAL programs (probabilistic facts, rules with one or two      *)
-(* body literals, negation), default (buffered) mode, several queries on   *)
-(* one target formula sharing the table.  One action per iteration of      *)
+(* Layer B.  ProbLog's message-driven grounding engine                     *)
+(* (problog/engine_stack.py, problog/eval_nodes.py) on PROPOSITIONAL       *)
+(* programs (probabilistic facts, rules with one or two body literals,     *)
+(* negation, recursion), default (buffered) mode, several queries on one   *)
+(* target formula sharing the table.  One action per iteration of          *)
 (* StackBasedEngine.execute's main loop (engine_stack.py:361): pop one     *)
 (* message, dispatch on its kind, push the messages it produces            *)
-(* (`actions += reversed(next_actions)`).  Transcribed:                    *)
-(*   eval_define (table hit / new goal; an ACTIVE goal = cycle is outside  *)
-(*   this stage and sets err), eval_clause, eval_fact, eval_call,          *)
-(*   eval_default for conj / neg; EvalDefine.new_result / complete /       *)
-(*   flushBuffer (buffered branch), EvalAnd.new_result / complete,         *)
-(*   EvalNot.new_result / complete, results_to_actions, add_record /       *)
-(*   cleanup (pointer discipline).  The target formula is the builder of   *)
-(*   FormulaBuilderOps.tla (add_atom, add_and, add_or, negate).            *)
+(* (`actions += reversed(next_actions)`), close the cycle when its         *)
+(* messages are exhausted.  Transcribed branch by branch:                  *)
+(*   eval_define : table hit / ACTIVE goal (ground shortcut + checkCycle,  *)
+(*                 or cycle child + cycleDetected) / new goal              *)
+(*   eval_clause, eval_fact, eval_call, eval_default for conj / neg        *)
+(*   EvalDefine  : new_result (cycle child / collapsed / buffered),        *)
+(*                 complete, flushBuffer, cycleDetected, closeCycle,       *)
+(*                 createCycle, siblings, cycle children, cycle_close      *)
+(*   EvalAnd, EvalNot (createCycle => NegativeCycle), results_to_actions   *)
+(*   engine      : find_cycle, notify_cycle, checkCycle, cycle_root,       *)
+(*                 MessageFIFO.cycle_exhausted, add_record / cleanup       *)
+(*   DefineCache : ground entries written while a goal is still active     *)
+(* The target formula is the builder of FormulaBuilderOps.tla (add_atom,   *)
+(* add_and, add_or readonly / mutable, add_disjunct, negate).              *)
 (* Schedules: a batch of >= 2 sibling 'e' messages may be pushed in any    *)
 (* order (the documented init_message_stack extension point; property C03).*)
+(* Python errors the code can raise are terminal states with `err` set     *)
+(* (AssertionError of ResultSet, NegativeCycle, IndirectCallCycleError,    *)
+(* ValueError of add_disjunct, InvalidEngineState).                        *)
 (*                                                                         *)
-(* Layer A, checked by TLC in every terminal state of every program of the *)
-(* family and every schedule:                                              *)
+(* Layer A, evaluated by TLC in every terminal state of every program of   *)
+(* the family and every schedule:                                          *)
 (*   ResultCorrect  - the key reported for a query means, in every world,  *)
-(*                    the truth of the query atom (C01 on the design)      *)
-(*   TableSound     - every table entry means its goal (C08)               *)
+(*                    the truth of the query atom in the well-founded      *)
+(*                    model (C01 on the design)                            *)
+(*   TableSound     - at the end every table entry means its goal (C08)    *)
+(*   NoError        - no exception on programs without a cycle through     *)
+(*                    negation (C01/C02)                                   *)
 (*   StackEmpty, NoDanglingMessages - engine state invariants              *)
-(* Schedule independence (C03) follows: ResultCorrect holds for all orders.*)
+(* Schedule independence (C03) follows: they hold for all orders.          *)
 (***************************************************************************)
 EXTENDS FormulaBuilderOps, SequencesExt
 
 CONSTANTS Programs,     \* set of programs; a program is a sequence of clauses [h |-> pred, b |-> Seq([s, a]), f |-> BOOLEAN]
                         \* (f = TRUE: a probabilistic fact h; its body is empty)
           QuerySeqs,    \* set of query sequences (each query is a predicate)
-          Permute       \* TRUE: sibling batches in any order; FALSE: the engine's own order
+          Permute,      \* TRUE: sibling batches in any order; FALSE: the engine's own order
+          CheckOnTableHit,  \* FALSE: the pinned engine; TRUE: checkCycle also when an ACTIVE goal is answered from the table
+          RepairFalseResult \* FALSE: the pinned engine; TRUE: a collapsed result whose node is FALSE is replaced by the next proof
 
 VARIABLES prog, queries, qi,          \* the program, the query sequence, index of the current query (0 = not started)
           stack, ptr,                 \* execution records, next free pointer (self.pointer)
           msgs,                       \* the message stack (top = last element)
           cache, active,              \* target._cache: pred -> key | NoRes ; currently active goals
+          croot,                      \* engine.cycle_root (pointer, -1 = None)
           fb,                         \* the target formula (builder state of FormulaBuilderOps)
           results,                    \* per finished query: the key it was given (NoRes = no answer = false)
-          err,                        \* "" | "cycle" (outside stage 1)
+          err,                        \* "" or the name of the exception raised
           log, sched                  \* history: popped messages / permutations used (hidden from the state by VIEW)
 
-vars == <<prog, queries, qi, stack, ptr, msgs, cache, active, fb, results, err, log, sched>>
-view == <<prog, queries, qi, stack, ptr, msgs, cache, active, fb, results, err>>
+vars == <<prog, queries, qi, stack, ptr, msgs, cache, active, croot, fb, results, err, log, sched>>
+view == <<prog, queries, qi, stack, ptr, msgs, cache, active, croot, fb, results, err>>
 
-NoRes == -FKey - 1            \* "goal evaluated, no result"
-Top   == -1                   \* parent of a top-level call (Python None)
-Nil   == [ cls |-> "nil" ]
-Opt   == [ ac |-> TRUE, kd |-> FALSE, ka |-> FALSE, ma |-> 0 ]      \* LogicFormula() defaults
+NoRes   == -FKey - 1          \* "goal evaluated, no result"
+NoIdent == -FKey - 2          \* identifier None
+Top     == -1                 \* parent of a top-level call (Python None)
+Nil     == [ cls |-> "nil" ]
+Opt     == [ ac |-> TRUE, kd |-> FALSE, ka |-> FALSE, ma |-> 0 ]      \* LogicFormula() defaults
 
 \* ---------------------------------------------------------------- the compiled database
 ClausesOf(P, p) == SelectSeq([ i \in DOMAIN P |-> i ], LAMBDA i : P[i].h = p)
 Lit(l)          == [ k |-> IF l.s = 1 THEN "call" ELSE "neg", p |-> l.a ]
-\* body node of clause i: a literal node, or a conjunction of two
 BodyOf(P, i)    == IF Len(P[i].b) = 1 THEN Lit(P[i].b[1]) ELSE [ k |-> "conj", l |-> Lit(P[i].b[1]), r |-> Lit(P[i].b[2]) ]
 
-\* ---------------------------------------------------------------- messages
-E(node, par, ident)           == [ t |-> "e", node |-> node, par |-> par, ident |-> ident, obj |-> 0, key |-> 0, last |-> FALSE ]
-R(obj, key, ident, last)      == [ t |-> "r", obj |-> obj, key |-> key, ident |-> ident, last |-> last, node |-> Nil, par |-> 0 ]
-C(obj, ident)                 == [ t |-> "c", obj |-> obj, ident |-> ident, key |-> 0, last |-> FALSE, node |-> Nil, par |-> 0 ]
-NoIdent == -FKey - 2          \* identifier None
+\* ---------------------------------------------------------------- messages and records
+E(node, par, ident)      == [ t |-> "e", node |-> node, par |-> par, ident |-> ident, obj |-> 0, key |-> 0, last |-> FALSE ]
+R(obj, key, ident, last) == [ t |-> "r", obj |-> obj, key |-> key, ident |-> ident, last |-> last, node |-> Nil, par |-> 0 ]
+C(obj, ident)            == [ t |-> "c", obj |-> obj, ident |-> ident, key |-> 0, last |-> FALSE, node |-> Nil, par |-> 0 ]
 
-\* engine state as a record, threaded through the pure transcription
-ES(s, p, c, a, f, e) == [ stack |-> s, ptr |-> p, cache |-> c, active |-> a, fb |-> f, err |-> e ]
-Ret(es, acts, cleanup) == [ es |-> es, acts |-> acts, cleanup |-> cleanup ]
+Rec(cls, p, par, ident, tc, second) ==
+  [ cls |-> cls, p |-> p, par |-> par, ident |-> ident, tc |-> tc, second |-> second,
+    res |-> << >>, coll |-> FALSE,        \* ResultSet of the single (ground) result: the buffered nodes, or <<key>> once collapsed
+    nodes |-> {},                         \* EvalNot
+    oncyc |-> FALSE, root |-> FALSE, child |-> FALSE, cpar |-> FALSE, cch |-> << >>, ccl |-> {}, sib |-> << >> ]
+
+ES(s, p, c, a, cr, f, e) == [ stack |-> s, ptr |-> p, cache |-> c, active |-> a, croot |-> cr, fb |-> f, err |-> e ]
+Ret(es, acts, cleanup)   == [ es |-> es, acts |-> acts, cleanup |-> cleanup ]
+Fail(es, what)           == Ret([ es EXCEPT !.err = IF @ = "" THEN what ELSE @ ], << >>, FALSE)
 
 AddRecord(es, rec) == [ es EXCEPT !.stack = (es.ptr :> rec) @@ @, !.ptr = @ + 1 ]
 RECURSIVE Lower(_, _)
 Lower(s, p) == IF p > 0 /\ s[p - 1] = Nil THEN Lower(s, p - 1) ELSE p
-Cleanup(es, obj) == LET s == [ es.stack EXCEPT ![obj] = Nil ] IN [ es EXCEPT !.stack = s, !.ptr = Lower(s, es.ptr) ]
+Cleanup(es, obj) ==
+  LET s == [ es.stack EXCEPT ![obj] = Nil ]
+  IN  [ es EXCEPT !.stack = s, !.ptr = Lower(s, es.ptr), !.croot = IF @ = obj THEN -1 ELSE @ ]
 
-\* results_to_actions for a table entry
+Buffered(rec)      == ~rec.oncyc                        \* engine.unbuffered is False
+IsCycleParent(rec) == rec.cch # << >> \/ rec.cpar
+\* results_to_actions for a (ground) table entry
 TableActions(v, par, ident) == IF v = NoRes \/ v = FKey THEN << C(par, ident) >> ELSE << R(par, v, ident, TRUE) >>
+
+\* EvalDefine.flushBuffer(cycle): collapse the buffered nodes into one (readonly, or mutable when on a cycle) disjunction;
+\* a ground goal's node is written to the table at once
+FlushBuffer(es, obj, cycle) ==
+  LET rec == es.stack[obj] IN
+  IF rec.coll THEN es
+  ELSE IF rec.res = << >> THEN [ es EXCEPT !.stack[obj].coll = TRUE ]
+  ELSE IF rec.p \in DOMAIN es.cache
+       THEN [ es EXCEPT !.stack[obj].coll = TRUE, !.stack[obj].res = << es.cache[rec.p] >> ]
+       ELSE LET o == AddCompound(Opt, es.fb, "disj", rec.res, ~cycle)
+            IN  [ es EXCEPT !.fb = o.st, !.stack[obj].coll = TRUE, !.stack[obj].res = << o.ret >>,
+                            \* (repaired engine) a goal that is still active gets no FALSE table entry
+                            !.cache = IF RepairFalseResult /\ o.ret = FKey THEN @ ELSE (rec.p :> o.ret) @@ @ ]
+
+\* createCycle of the record at pointer x: [es, acts]
+CreateCycle(es, x) ==
+  LET rec == es.stack[x] IN
+  CASE rec.cls = "not" -> [ es |-> [ es EXCEPT !.err = IF @ = "" THEN "NegativeCycle" ELSE @ ], acts |-> << >> ]
+    [] rec.cls = "and" -> [ es |-> [ es EXCEPT !.stack[x].oncyc = TRUE ], acts |-> << >> ]
+    [] rec.cls = "def" ->
+         IF rec.oncyc \/ rec.root THEN [ es |-> es, acts |-> << >> ]
+         ELSE LET e1 == FlushBuffer([ es EXCEPT !.stack[x].oncyc = TRUE ], x, TRUE)
+                  r1 == e1.stack[x]
+                  one(k) == << R(r1.par, k, r1.ident, FALSE) >> \o
+                            \* `for s in self.siblings: actions += self.notifyResultSiblings(result, node)`
+                            FlattenSeq([ i \in DOMAIN r1.sib |-> [ j \in DOMAIN r1.sib |-> R(r1.sib[j], k, r1.ident, FALSE) ] ])
+              IN  [ es |-> e1, acts |-> IF r1.res = << >> \/ (RepairFalseResult /\ r1.res[1] = FKey) THEN << >> ELSE one(r1.res[1]) ]
+
+\* engine.find_cycle(child, parent): [ok, c]
+RECURSIVE FindCycle(_, _, _, _, _)
+FindCycle(es, child, parent, acc, rootEnc) ==
+  IF child = Top
+  THEN IF rootEnc > 0 THEN [ ok |-> TRUE, c |-> SubSeq(acc, 1, rootEnc) ] ELSE [ ok |-> FALSE, c |-> << >> ]
+  ELSE LET acc1 == Append(acc, child)
+           node == es.stack[child]
+           viaSib == IF node.cls = "def"
+                     THEN SelectSeq([ i \in DOMAIN node.sib |-> FindCycle(es, node.sib[i], parent, << >>, 0) ],
+                                    LAMBDA x : x.ok /\ x.c # << >>)
+                     ELSE << >>
+       IN  IF viaSib # << >> THEN [ ok |-> TRUE, c |-> acc1 \o viaSib[1].c ]
+           ELSE IF node.par = parent THEN [ ok |-> TRUE, c |-> acc1 ]
+           ELSE FindCycle(es, node.par, parent, acc1,
+                          IF es.croot # -1 /\ node.par = es.croot THEN Len(acc1) ELSE rootEnc)
+
+\* engine.notify_cycle(cycle): createCycle of cycle[1:], in order
+RECURSIVE NotifyCycle(_, _, _, _)
+NotifyCycle(es, cyc, i, acts) ==
+  IF i > Len(cyc) THEN [ es |-> es, acts |-> acts ]
+  ELSE LET r == CreateCycle(es, cyc[i]) IN NotifyCycle(r.es, cyc, i + 1, acts \o r.acts)
+
+\* engine.checkCycle(child, parent): a negation between the caller and the active goal is a cycle through negation
+RECURSIVE CheckCycle(_, _, _)
+CheckCycle(es, cur, parent) ==
+  IF cur <= parent THEN es
+  ELSE LET n == es.stack[cur] IN
+       IF n.oncyc THEN es
+       ELSE IF n.cls = "not" THEN [ es EXCEPT !.err = IF @ = "" THEN "NegativeCycle" ELSE @ ]
+       ELSE CheckCycle(es, n.par, parent)
+
+\* EvalDefine.cycleDetected: c = the new (cycle child) record, a = the active record of the same goal
+CycleDetected(es, c, a) ==
+  LET cyc == FindCycle(es, c, a, << >>, 0)
+      ra  == es.stack[a]
+      rc  == es.stack[c]
+  IN  IF ~cyc.ok \/ cyc.c = << >>
+      THEN \* not a real cycle: the new caller becomes a sibling of the active node
+           LET e1 == [ es EXCEPT !.stack[a].sib = Append(@, c), !.stack[c].child = TRUE ]
+           IN  IF ra.res # << >> /\ ~ra.coll THEN Fail(e1, "IndirectCallCycleError")
+               ELSE Ret(e1, IF ra.res = << >> THEN << >>
+                            ELSE << R(c, ra.res[1], rc.ident, FALSE), R(c, ra.res[1], rc.ident, FALSE) >>, FALSE)
+      ELSE LET e1 == FlushBuffer([ es EXCEPT !.stack[c].child = TRUE, !.stack[a].cch = Append(@, c) ], a, TRUE)
+               q0 == IF e1.stack[a].res = << >> THEN << >> ELSE << R(c, e1.stack[a].res[1], rc.ident, FALSE) >>
+               oldroot == e1.croot
+               swap == oldroot # -1 /\ a < oldroot
+               \* the new parent is earlier on the stack than the current cycle root: it becomes the root
+               e2 == IF swap
+                     THEN [ e1 EXCEPT !.stack[oldroot].root = FALSE, !.stack[a].ccl = e1.stack[oldroot].ccl,
+                                      !.stack[oldroot].ccl = {}, !.croot = a ]
+                     ELSE e1
+               s1 == IF swap THEN CreateCycle(e2, oldroot) ELSE [ es |-> e2, acts |-> << >> ]
+               s2 == IF swap THEN NotifyCycle(s1.es, cyc.c, 2, << >>) ELSE [ es |-> s1.es, acts |-> << >> ]
+               q1 == q0 \o s1.acts \o s2.acts
+               noRoot == swap \/ oldroot = -1
+           IN  IF noRoot
+               THEN LET e3 == [ s2.es EXCEPT !.croot = a, !.stack[a].root = TRUE, !.stack[a].ccl = @ \cup {c} ]
+                        n  == NotifyCycle(e3, cyc.c, 2, << >>)
+                    IN  Ret(n.es, q1 \o n.acts, FALSE)
+               ELSE LET e3 == [ s2.es EXCEPT !.stack[oldroot].ccl = @ \cup {c} ]
+                        n  == NotifyCycle(e3, cyc.c, 2, << >>)
+                    IN  IF a = n.es.croot THEN Ret(n.es, q1 \o n.acts, FALSE)
+                        ELSE LET tr == FindCycle(n.es, a, n.es.croot, << >>, 0)
+                             IN  IF ~tr.ok THEN Fail(n.es, "IndirectCallCycleError")
+                                 ELSE LET cc == CreateCycle(n.es, a)
+                                          n2 == NotifyCycle(cc.es, tr.c, 2, << >>)
+                                      IN  Ret(n2.es, q1 \o n.acts \o cc.acts \o n2.acts, FALSE)
 
 \* eval(node) : records pushed, messages produced (engine_stack.py eval_* functions)
 RECURSIVE EvalN(_, _, _, _, _)
 EvalN(P, es, node, par, ident) ==
   CASE node.k = "define" ->
-         IF node.p \in DOMAIN es.cache THEN Ret(es, TableActions(es.cache[node.p], par, ident), FALSE)
-         ELSE IF node.p \in es.active THEN Ret([ es EXCEPT !.err = "cycle" ], << >>, FALSE)
+         IF node.p \in DOMAIN es.cache
+         THEN \* table hit.  The entry of a ground goal is written when its buffer is flushed, i.e. possibly while the goal is
+              \* still active: the pinned code then hands the node out WITHOUT looking for a negation between the caller and
+              \* the active goal (known finding KF4).  CheckOnTableHit = TRUE models the repaired engine.
+              LET ap == IF node.p \in es.active
+                        THEN CHOOSE x \in DOMAIN es.stack : es.stack[x] # Nil /\ es.stack[x].cls = "def" /\ es.stack[x].p = node.p /\ ~es.stack[x].child
+                        ELSE -1
+                  e1 == IF CheckOnTableHit /\ ap # -1 /\ par # Top THEN CheckCycle(es, par, ap) ELSE es
+              IN  Ret(e1, TableActions(es.cache[node.p], par, ident), FALSE)
+         ELSE IF node.p \in es.active
+         THEN LET ap == CHOOSE x \in DOMAIN es.stack : es.stack[x] # Nil /\ es.stack[x].cls = "def" /\ es.stack[x].p = node.p
+                                                        /\ ~es.stack[x].child
+              IN  IF es.stack[ap].res # << >> /\ (~RepairFalseResult \/ \E i \in DOMAIN es.stack[ap].res : es.stack[ap].res[i] # FKey)
+                  THEN \* ground goal with results: flush its buffer, hand out the (mutable) node, look for a negation
+                       LET e1 == FlushBuffer(es, ap, TRUE)
+                           e2 == [ e1 EXCEPT !.stack[ap].cpar = TRUE ]
+                           e3 == IF par = Top THEN e2 ELSE CheckCycle(e2, par, ap)
+                       IN  Ret(e3, TableActions(e2.stack[ap].res[1], par, ident), FALSE)
+                  ELSE LET rec == Rec("def", node.p, par, ident, 0, Nil)
+                       IN  CycleDetected(AddRecord(es, rec), es.ptr, ap)
          ELSE LET ch == ClausesOf(P, node.p)
               IN  IF ch = << >> THEN Ret(es, << C(par, ident) >>, FALSE)
-                  ELSE LET rec == [ cls |-> "def", p |-> node.p, par |-> par, ident |-> ident, tc |-> Len(ch), res |-> << >>,
-                                    second |-> Nil, nodes |-> {} ]
-                           es1 == AddRecord(es, rec)
+                  ELSE LET es1 == AddRecord(es, Rec("def", node.p, par, ident, Len(ch), Nil))
                        IN  Ret([ es1 EXCEPT !.active = @ \cup {node.p} ],
                                [ j \in DOMAIN ch |-> E([ k |-> "clause", i |-> ch[j] ], es.ptr, ident) ], FALSE)
     [] node.k = "clause" ->
          IF P[node.i].f
-         THEN \* eval_fact: target.add_atom(node_id, probability, name)
-              LET a == AddAtom(Opt, es.fb, P[node.i].h, 0)
+         THEN \* eval_fact: target.add_atom(node_id, probability, name); the fact named "t" is deterministic (no probability)
+              LET a == AddAtom(Opt, es.fb, P[node.i].h, IF P[node.i].h = "t" THEN 1 ELSE 0)
               IN  Ret([ es EXCEPT !.fb = a.st ], << R(par, a.ret, ident, TRUE) >>, FALSE)
-         ELSE EvalN(P, es, BodyOf(P, node.i), par, ident)                   \* eval_clause evaluates the body node directly
+         ELSE EvalN(P, es, BodyOf(P, node.i), par, ident)              \* eval_clause evaluates the body node directly
     [] node.k = "call" -> EvalN(P, es, [ k |-> "define", p |-> node.p ], par, ident)
-    [] node.k = "conj" ->
-         LET rec == [ cls |-> "and", p |-> "", par |-> par, ident |-> ident, tc |-> 1, res |-> << >>, second |-> node.r, nodes |-> {} ]
-         IN  Ret(AddRecord(es, rec), << E(node.l, es.ptr, NoIdent) >>, FALSE)
-    [] node.k = "neg" ->
-         LET rec == [ cls |-> "not", p |-> "", par |-> par, ident |-> ident, tc |-> 0, res |-> << >>, second |-> Nil, nodes |-> {} ]
-         IN  Ret(AddRecord(es, rec), << E([ k |-> "call", p |-> node.p ], es.ptr, ident) >>, FALSE)
+    [] node.k = "conj" -> Ret(AddRecord(es, Rec("and", "", par, ident, 1, node.r)), << E(node.l, es.ptr, NoIdent) >>, FALSE)
+    [] node.k = "neg"  -> Ret(AddRecord(es, Rec("not", "", par, ident, 0, Nil)), << E([ k |-> "call", p |-> node.p ], es.ptr, ident) >>, FALSE)
 
-\* EvalDefine.complete (buffered, not on a cycle)
+\* EvalDefine.complete
 DefComplete(es, obj) ==
-  LET rec == es.stack[obj]
-      tc  == rec.tc - 1
-  IN  IF tc > 0 THEN Ret([ es EXCEPT !.stack[obj].tc = tc ], << >>, FALSE)
-      ELSE IF rec.res = << >>
-           THEN Ret([ es EXCEPT !.stack[obj].tc = 0, !.cache = (rec.p :> NoRes) @@ @, !.active = @ \ {rec.p} ],
-                    << C(rec.par, rec.ident) >>, TRUE)
-           ELSE \* flushBuffer: node = target.add_or(nodes, readonly=True)
-                LET o == AddCompound(Opt, es.fb, "disj", rec.res, TRUE)
-                IN  Ret([ es EXCEPT !.stack[obj].tc = 0, !.fb = o.st, !.cache = (rec.p :> o.ret) @@ @, !.active = @ \ {rec.p} ],
-                        TableActions(o.ret, rec.par, rec.ident), TRUE)
+  LET rec == es.stack[obj] IN
+  IF rec.child THEN Ret(es, << C(rec.par, rec.ident) >>, TRUE)
+  ELSE LET tc == rec.tc - 1 IN
+       IF tc # 0 THEN Ret([ es EXCEPT !.stack[obj].tc = tc ], << >>, FALSE)
+       ELSE LET e1  == FlushBuffer([ es EXCEPT !.stack[obj].tc = 0 ], obj, FALSE)
+                r1  == e1.stack[obj]
+                val == IF r1.res = << >> THEN NoRes ELSE r1.res[1]
+                e2  == [ e1 EXCEPT !.cache = (rec.p :> val) @@ @, !.active = @ \ {rec.p} ]
+                toSibs(last) == [ i \in DOMAIN r1.sib |-> IF val = NoRes \/ ~last THEN C(r1.sib[i], r1.ident)
+                                                          ELSE R(r1.sib[i], val, r1.ident, TRUE) ]
+            IN  IF Buffered(r1)
+                THEN Ret(e2, TableActions(val, r1.par, r1.ident) \o toSibs(TRUE), TRUE)
+                ELSE Ret(e2, << C(r1.par, r1.ident) >> \o toSibs(FALSE), TRUE)
+
+\* EvalDefine.new_result
+DefNewResult(es, obj, m) ==
+  LET rec == es.stack[obj] IN
+  IF rec.child THEN Ret(es, << R(rec.par, m.key, rec.ident, m.last) >>, m.last)
+  ELSE IF ~Buffered(rec) \/ IsCycleParent(rec)
+  THEN IF ~rec.coll THEN Fail(es, "AssertionError")                       \* assert self.results.collapsed
+       ELSE IF rec.res # << >> /\ rec.res[1] # FKey
+       THEN \* res_node = self.results.get(res) is not None: target.add_disjunct(res_node, node)
+            LET k == rec.res[1]
+                e1 == IF k = 0 THEN es ELSE [ es EXCEPT !.fb = AddDisjunct(Opt, es.fb, k, m.key) ]
+            IN  IF m.last THEN DefComplete(e1, obj) ELSE Ret(e1, << >>, FALSE)
+       ELSE IF rec.res # << >> /\ ~RepairFalseResult
+       THEN \* the stored node is FALSE (Python None): results.get() cannot tell it from "no result yet", the code goes on to
+            \* `self.results[res] = result_node` and ResultSet.__setitem__ asserts `not self.collapsed` (known finding KF1)
+            Fail(es, "AssertionError")
+       ELSE LET o  == IF rec.p \in DOMAIN es.cache /\ es.cache[rec.p] # FKey THEN [ st |-> es.fb, ret |-> es.cache[rec.p] ]
+                      ELSE IF rec.p \in DOMAIN es.cache /\ ~RepairFalseResult THEN [ st |-> es.fb, ret |-> es.cache[rec.p] ]
+                      ELSE AddCompound(Opt, es.fb, "disj", << m.key >>, FALSE)
+                e1 == [ es EXCEPT !.fb = o.st, !.stack[obj].res = << o.ret >>,
+                                  !.cache = IF RepairFalseResult /\ o.ret = FKey THEN @ ELSE (rec.p :> o.ret) @@ @ ]
+                up == IF ~Buffered(rec) /\ o.ret # FKey THEN << R(rec.par, o.ret, rec.ident, FALSE) >> ELSE << >>
+                dn == IF o.ret # FKey
+                      THEN [ i \in DOMAIN rec.cch |-> R(rec.cch[i], o.ret, rec.ident, FALSE) ] \o
+                           [ i \in DOMAIN rec.sib |-> R(rec.sib[i], o.ret, rec.ident, FALSE) ]
+                      ELSE << >>
+            IN  IF m.last THEN LET d == DefComplete(e1, obj) IN Ret(d.es, up \o dn \o d.acts, d.cleanup)
+                ELSE Ret(e1, up \o dn, FALSE)
+  ELSE IF rec.coll THEN Fail(es, "AssertionError")                        \* assert not self.results.collapsed
+  ELSE LET e1 == [ es EXCEPT !.stack[obj].res = Append(@, m.key) ]
+       IN  IF m.last THEN DefComplete(e1, obj) ELSE Ret(e1, << >>, FALSE)
 
 AndComplete(es, obj) ==
   LET tc == es.stack[obj].tc - 1
@@ -122,25 +287,28 @@ NotComplete(es, obj) ==
   LET rec == es.stack[obj] IN
   IF rec.nodes = {}
   THEN Ret(es, << R(rec.par, 0, rec.ident, FALSE), C(rec.par, rec.ident) >>, TRUE)
-  ELSE \* target.add_not(target.add_or(self.nodes)) ; self.nodes is a Python set of ints: iteration in increasing order
-       \* for the small non-negative keys that occur here (negative keys sort first)
+  ELSE \* target.add_not(target.add_or(self.nodes)): a ground goal has one result, so the set has one element
        LET o == AddCompound(Opt, es.fb, "disj", SetToSortSeq(rec.nodes, <), TRUE)
            n == NegKey(o.ret)
        IN  Ret([ es EXCEPT !.fb = o.st ],
                IF n = FKey THEN << C(rec.par, rec.ident) >> ELSE << R(rec.par, n, rec.ident, FALSE), C(rec.par, rec.ident) >>, TRUE)
 
-\* a result message delivered to the record at obj
 OnResult(es, m) ==
   LET rec == es.stack[m.obj] IN
-  CASE rec.cls = "def" ->
-         LET es1 == [ es EXCEPT !.stack[m.obj].res = Append(@, m.key) ]
-         IN  IF m.last THEN DefComplete(es1, m.obj) ELSE Ret(es1, << >>, FALSE)
+  CASE rec.cls = "def" -> DefNewResult(es, m.obj, m)
     [] rec.cls = "and" ->
-         IF m.ident = NoIdent
+         IF m.ident = NoIdent /\ RepairFalseResult /\ m.key = FKey
+         THEN \* (repaired engine) a FALSE first conjunct is no result
+              IF m.last THEN LET ac == AndComplete(es, m.obj)
+                             IN  Ret(ac.es, IF ac.all THEN << C(rec.par, rec.ident) >> ELSE << >>, ac.all)
+              ELSE Ret(es, << >>, FALSE)
+         ELSE IF m.ident = NoIdent
          THEN \* result of the first conjunct: start the second one, carrying the first one's node as identifier
               LET es1 == [ es EXCEPT !.stack[m.obj].tc = @ + 1 ]
                   es2 == IF m.last THEN AndComplete(es1, m.obj).es ELSE es1
-              IN  Ret(es2, << E(rec.second, m.obj, m.key) >>, FALSE)
+                  \* identifier=node: a FALSE node is Python None, i.e. the same as "no identifier" - the results of the
+                  \* second conjunct are then taken for results of the first one again
+              IN  Ret(es2, << E(rec.second, m.obj, IF m.key = FKey THEN NoIdent ELSE m.key) >>, FALSE)
          ELSE \* result of the second conjunct: target.add_and((source, node))
               LET a  == AddCompound(Opt, es.fb, "conj", << m.ident, m.key >>, TRUE)
                   e1 == [ es EXCEPT !.fb = a.st ]
@@ -157,25 +325,38 @@ OnComplete(es, m) ==
                           IN  Ret(ac.es, IF ac.all THEN << C(rec.par, rec.ident) >> ELSE << >>, ac.all)
     [] rec.cls = "not" -> NotComplete(es, m.obj)
 
-\* ---------------------------------------------------------------- the state machine
-Cur == ES(stack, ptr, cache, active, fb, err)
 Perms(n) == { f \in [ 1..n -> 1..n ] : \A i, j \in 1..n : i # j => f[i] # f[j] }
-\* the orders in which a batch of produced messages may be pushed: any order for a batch of >= 2 sibling 'e' messages
+\* cycle_root.closeCycle(True)
+CloseCycle(es) ==
+  LET a == es.croot
+      rec == es.stack[a]
+  IN  IF rec.root THEN [ es |-> [ es EXCEPT !.croot = -1 ],
+                         acts |-> LET cc == SetToSortSeq(rec.ccl, <) IN [ i \in DOMAIN cc |-> C(cc[i], rec.ident) ] ]
+      ELSE [ es |-> es, acts |-> << >> ]
+\* `for cc in self.cycle_close` iterates a Python set: the order is an artefact of the hash table, so the model allows any
+ClosingOrders(acts) == { [ i \in DOMAIN acts |-> acts[f[i]] ] : f \in Perms(Len(acts)) }
+
+\* ---------------------------------------------------------------- the state machine
+Cur == ES(stack, ptr, cache, active, croot, fb, err)
 Orders(acts) == IF Permute /\ Len(acts) > 1 /\ \A i \in DOMAIN acts : acts[i].t = "e"
                 THEN { [ i \in DOMAIN acts |-> acts[f[i]] ] : f \in Perms(Len(acts)) }
                 ELSE { acts }
 
+\* install the outcome r of processing a message: push its messages (any sibling order), close an exhausted cycle, clean up
 Install(r, obj, popped) ==
-  \E ord \in Orders(r.acts) :
-     LET es == IF r.cleanup THEN Cleanup(r.es, obj) ELSE r.es
-     IN  /\ stack' = es.stack /\ ptr' = es.ptr /\ cache' = es.cache /\ active' = es.active /\ fb' = es.fb /\ err' = es.err
+  LET closing == popped = << >> /\ r.acts = << >> /\ r.es.croot # -1 /\ r.es.err = ""
+      cl == IF closing THEN CloseCycle(r.es) ELSE [ es |-> r.es, acts |-> r.acts ]
+      es == IF r.cleanup THEN Cleanup(cl.es, obj) ELSE cl.es
+  IN  \E ord \in (IF closing THEN ClosingOrders(cl.acts) ELSE Orders(cl.acts)) :
+         /\ stack' = es.stack /\ ptr' = es.ptr /\ cache' = es.cache /\ active' = es.active /\ croot' = es.croot
+         /\ fb' = es.fb /\ err' = es.err
          /\ msgs' = popped \o Reverse(ord)
          /\ sched' = IF Len(ord) > 1 /\ \A i \in DOMAIN ord : ord[i].t = "e"
-                     THEN Append(sched, [ i \in DOMAIN ord |-> CHOOSE j \in DOMAIN r.acts : r.acts[j] = ord[i] ]) ELSE sched
+                     THEN Append(sched, [ i \in DOMAIN ord |-> CHOOSE j \in DOMAIN cl.acts : cl.acts[j] = ord[i] ]) ELSE sched
 
 Init ==
   /\ prog \in Programs /\ queries \in QuerySeqs /\ qi = 0
-  /\ stack = << >> /\ ptr = 0 /\ msgs = << >> /\ cache = << >> /\ active = {}
+  /\ stack = << >> /\ ptr = 0 /\ msgs = << >> /\ cache = << >> /\ active = {} /\ croot = -1
   /\ fb = [ nodes |-> << >>, ia |-> << >>, ic |-> << >>, id |-> << >> ]
   /\ results = << >> /\ err = "" /\ log = << >> /\ sched = << >>
 
@@ -183,50 +364,79 @@ Init ==
 StartQuery ==
   /\ msgs = << >> /\ err = "" /\ qi < Len(queries) /\ Len(results) = qi
   /\ qi' = qi + 1
-  /\ LET r == EvalN(prog, Cur, [ k |-> "define", p |-> queries[qi + 1] ], Top, NoIdent)
-     IN  Install(r, 0, << >>)
+  /\ Install(EvalN(prog, Cur, [ k |-> "define", p |-> queries[qi + 1] ], Top, NoIdent), 0, << >>)
   /\ log' = Append(log, [ t |-> "q", p |-> queries[qi + 1] ])
   /\ UNCHANGED <<prog, queries, results>>
 
+\* MessageFIFO.cycle_exhausted(): the next message would evaluate a node outside the active cycle
+CycleExhausted ==
+  /\ croot # -1 /\ msgs # << >>
+  /\ LET m == msgs[Len(msgs)] IN m.t = "e" /\ m.par < croot
+
 Step ==
   /\ msgs # << >> /\ err = ""
-  /\ LET m == msgs[Len(msgs)]
-         rest == SubSeq(msgs, 1, Len(msgs) - 1)
-     IN  /\ log' = Append(log, m)
-         /\ IF m.t = "e"
-            THEN /\ Install(EvalN(prog, Cur, m.node, m.par, m.ident), 0, rest) /\ UNCHANGED results
-            ELSE IF m.obj = Top
-            THEN \* top level: 'r' records the solution (and ends the query when is_last), 'c' ends it without one
-                 /\ results' = IF Len(results) = qi THEN results   \* already recorded (r not last, then c)
-                               ELSE Append(results, IF m.t = "r" THEN m.key ELSE NoRes)
-                 /\ msgs' = rest
-                 /\ UNCHANGED <<stack, ptr, cache, active, fb, err, sched>>
-            ELSE /\ Install(IF m.t = "r" THEN OnResult(Cur, m) ELSE OnComplete(Cur, m), m.obj, rest) /\ UNCHANGED results
+  /\ IF CycleExhausted
+     THEN LET cl == CloseCycle(Cur)
+          IN  /\ \E ord \in ClosingOrders(cl.acts) : msgs' = msgs \o Reverse(ord)
+              /\ croot' = cl.es.croot
+              /\ UNCHANGED <<stack, ptr, cache, active, fb, err, results, log, sched>>
+     ELSE LET m == msgs[Len(msgs)]
+              rest == SubSeq(msgs, 1, Len(msgs) - 1)
+          IN  /\ log' = Append(log, m)
+              /\ IF m.t = "e"
+                 THEN /\ Install(EvalN(prog, Cur, m.node, m.par, m.ident), 0, rest) /\ UNCHANGED results
+                 ELSE IF m.obj = Top
+                 THEN \* top level: every 'r' names the query's node; is_last (or 'c') ends the execution
+                      /\ results' = IF m.t = "r" THEN (IF Len(results) = qi THEN [ results EXCEPT ![qi] = m.key ] ELSE Append(results, m.key))
+                                    ELSE IF Len(results) = qi THEN results ELSE Append(results, NoRes)
+                      /\ IF m.t = "r" /\ ~m.last
+                         THEN msgs' = rest /\ err' = err
+                         ELSE /\ msgs' = << >>
+                              /\ err' = IF m.t = "r" /\ ptr # 0 THEN "InvalidEngineState" ELSE err
+                      /\ UNCHANGED <<stack, ptr, cache, active, croot, fb, sched>>
+                 ELSE IF m.obj \notin DOMAIN stack \/ stack[m.obj] = Nil
+                 THEN /\ err' = "InvalidEngineState" /\ msgs' = rest
+                      /\ UNCHANGED <<stack, ptr, cache, active, croot, fb, sched, results>>
+                 ELSE /\ Install(IF m.t = "r" THEN OnResult(Cur, m) ELSE OnComplete(Cur, m), m.obj, rest) /\ UNCHANGED results
   /\ UNCHANGED <<prog, queries, qi>>
 
 Next == StartQuery \/ Step
 Spec == Init /\ [][Next]_vars
 
-Done == msgs = << >> /\ qi = Len(queries) /\ Len(results) = qi /\ err = ""
+Done   == msgs = << >> /\ qi = Len(queries) /\ Len(results) = qi /\ err = ""
+Failed == err # ""
+\* execute() ran out of messages without a top-level result: "Engine did not complete correctly!"
+Stuck  == msgs = << >> /\ err = "" /\ qi > 0 /\ Len(results) < qi
 
 \* ---------------------------------------------------------------- Layer A
-Facts(P) == { P[i].h : i \in { j \in DOMAIN P : P[j].f } }
-\* least-model truth of an atom of an acyclic program in the world `asg` (the set of facts that are true)
-RECURSIVE Truth(_, _, _)
-Truth(P, asg, p) ==
-  \E i \in DOMAIN P : P[i].h = p /\
-     IF P[i].f THEN p \in asg
-     ELSE \A j \in DOMAIN P[i].b : IF P[i].b[j].s = 1 THEN Truth(P, asg, P[i].b[j].a) ELSE ~Truth(P, asg, P[i].b[j].a)
+Facts(P) == { P[i].h : i \in { j \in DOMAIN P : P[j].f /\ P[j].h # "t" } }
+Preds(P) == { P[i].h : i \in DOMAIN P }
+RulesIn(P, asg) == { [ h |-> P[i].h, pos |-> { P[i].b[j].a : j \in { x \in DOMAIN P[i].b : P[i].b[x].s = 1 } },
+                       neg |-> { P[i].b[j].a : j \in { x \in DOMAIN P[i].b : P[i].b[x].s = 0 } } ]
+                     : i \in { j \in DOMAIN P : ~P[j].f \/ P[j].h \in asg \/ P[j].h = "t" } }
+\* three-valued truth of atom p in the well-founded model of the world `asg`
+Truth3(P, asg, p) == LET wf == WFM(RulesIn(P, asg)) IN IF p \in wf[1] THEN "T" ELSE IF p \in wf[2] THEN "U" ELSE "F"
+\* the ground dependency graph has a cycle through a negation
+DepEdges(P) == { <<P[i].h, P[i].b[j].a, P[i].b[j].s>> : <<i, j>> \in { <<a, b>> \in (DOMAIN P) \X (1..2) : b \in DOMAIN P[a].b } }
+RECURSIVE ReachD(_, _)
+ReachD(Ed, S) == LET T == S \cup { <<e[2], IF e[3] = 0 THEN 1 ELSE x[2]>> : <<e, x>> \in { <<a, b>> \in Ed \X S : a[1] = b[1] } }
+                 IN  IF T = S THEN S ELSE ReachD(Ed, T)
+NegCyclic(P) == \E p \in Preds(P) : <<p, 1>> \in ReachD(DepEdges(P), { <<p, 0>> })
 
 KeyTruth(asg, k) == IF k = NoRes THEN "F" ELSE KeyValue("r", WFM(GraphRules("r", fb.nodes, asg)), k)
 ResultCorrect ==
-  Done => \A q \in DOMAIN results : \A asg \in SUBSET Facts(prog) :
-            KeyTruth(asg, results[q]) = (IF Truth(prog, asg, queries[q]) THEN "T" ELSE "F")
+  Done /\ ~NegCyclic(prog) => \A q \in DOMAIN results : \A asg \in SUBSET Facts(prog) :
+                                  KeyTruth(asg, results[q]) = Truth3(prog, asg, queries[q])
 TableSound ==
-  \A p \in DOMAIN cache : \A asg \in SUBSET Facts(prog) :
-     KeyTruth(asg, cache[p]) = (IF Truth(prog, asg, p) THEN "T" ELSE "F")
-StackEmpty == Done => ptr = 0 /\ active = {}
+  Done /\ ~NegCyclic(prog) => \A p \in DOMAIN cache : \A asg \in SUBSET Facts(prog) :
+                                  KeyTruth(asg, cache[p]) = Truth3(prog, asg, p)
+NoError    == ~NegCyclic(prog) => err = "" /\ ~Stuck
+NegCycleOnlyWhenCyclic == err = "NegativeCycle" => NegCyclic(prog)
+\* C02: an answer is only given when every query atom is two-valued in every world - and is then the right one
+AnsweredOnlyWhenDefined ==
+  Done => \A q \in DOMAIN results : \A asg \in SUBSET Facts(prog) :
+             Truth3(prog, asg, queries[q]) # "U" /\ KeyTruth(asg, results[q]) = Truth3(prog, asg, queries[q])
+StackEmpty == Done => ptr = 0 /\ active = {} /\ croot = -1
 NoDanglingMessages ==
   \A i \in DOMAIN msgs : msgs[i].t = "e" \/ msgs[i].obj = Top \/ (msgs[i].obj \in DOMAIN stack /\ stack[msgs[i].obj] # Nil)
-NoCycleInFamily == err = ""
 =============================================================================
